@@ -1067,6 +1067,8 @@ def adapt_typehints(
                         partial_classes=partial_classes,
                         prev_val=prev_val,
                     )
+                elif not callable(val):
+                    raise ImportError(f"Unexpected value {val_input}")
             except (ImportError, AttributeError, ArgumentError) as ex:
                 raise_unexpected_value(f"Type {typehint} expects a function or a callable class: {ex}", val, ex)
 
